@@ -21,7 +21,7 @@ import ast
 from ..cfg import CFG, definitely_assigned, local_names, uses
 from ..exctypes import ExcTypes
 from ..facts import flag_constants, must_facts
-from ..model import Program, call_name, norm, walk_no_nested, dict_store_keys
+from ..model import Program, call_name, norm, walk_no_nested, dict_store_keys, inline_private_helpers
 from ..report import AnalysisError
 
 PROP = "C12"
@@ -32,7 +32,10 @@ def solver_functions(program: Program):
     fs = [f for n, f in m.functions.items() if n.startswith("solve_")]
     if len(fs) < 5:
         raise AnalysisError(f"expected >= 5 solver functions in solvers.py, found {len(fs)}")
-    return fs
+    # shared pieces extracted into private helpers are analysed in place
+    import dataclasses
+
+    return [dataclasses.replace(f, node=inline_private_helpers(f)) for f in fs]
 
 
 def build_cfg(f, et: ExcTypes) -> CFG:
